@@ -1164,7 +1164,13 @@ func (c *Ctx) carrierRetained(fn *ssa.Function, alias map[ssa.Value]bool) {
 	c.carrierRetainedAt(fn, alias, 0)
 }
 
-func (c *Ctx) carrierRetainedAt(fn *ssa.Function, alias map[ssa.Value]bool, depth int) {
+func (c *Ctx) carrierRetainedAt(fn *ssa.Function, alias map[ssa.Value]bool, depth int, gparams ...map[ssa.Value]*ssa.Global) {
+	// gp: parameters of a helper that the caller bound to package-level state (`rejected.put(key, err)` with the
+	// pointer-typed package variable `rejected` as receiver): what is stored through them stays
+	var gp map[ssa.Value]*ssa.Global
+	if len(gparams) > 0 {
+		gp = gparams[0]
+	}
 	fromGlobal := func(v ssa.Value) *ssa.Global {
 		for i := 0; i < 6; i++ {
 			switch y := v.(type) {
@@ -1181,6 +1187,8 @@ func (c *Ctx) carrierRetainedAt(fn *ssa.Function, alias map[ssa.Value]bool, dept
 				continue
 			case *ssa.Global:
 				return y
+			case *ssa.Parameter:
+				return gp[y]
 			}
 			break
 		}
@@ -1196,6 +1204,9 @@ func (c *Ctx) carrierRetainedAt(fn *ssa.Function, alias map[ssa.Value]bool, dept
 					continue // a slice of the input itself: the retention rule below
 				}
 				g, vals = rootGlobal(x.Addr), []ssa.Value{x.Val}
+				if g == nil {
+					g = fromGlobal(x.Addr)
+				}
 			case *ssa.MapUpdate:
 				g, vals = fromGlobal(x.Map), []ssa.Value{x.Key, x.Value}
 			case *ssa.Call:
@@ -1207,13 +1218,21 @@ func (c *Ctx) carrierRetainedAt(fn *ssa.Function, alias map[ssa.Value]bool, dept
 				if f := c.StaticCallee(&x.Call); f != nil && inRepo(f) && depth < 3 {
 					gfn := origin(f)
 					inner := map[ssa.Value]bool{}
+					bound := map[ssa.Value]*ssa.Global{}
 					for ai, a := range x.Call.Args {
 						if ai < len(gfn.Params) && !alias[a] && c.carries(a, alias, 0, map[ssa.Value]bool{}) {
 							inner[gfn.Params[ai]] = true
 						}
+						if ai < len(gfn.Params) {
+							if _, isPtr := a.Type().Underlying().(*types.Pointer); isPtr {
+								if pg := fromGlobal(a); pg != nil {
+									bound[gfn.Params[ai]] = pg
+								}
+							}
+						}
 					}
 					if len(inner) > 0 {
-						c.carrierRetainedAt(gfn, inner, depth+1)
+						c.carrierRetainedAt(gfn, inner, depth+1, bound)
 					}
 				}
 			}
